@@ -384,6 +384,70 @@ pub trait TypeOps: Send + Sync {
 pub struct Erased {
     core: Box<dyn Core>,
 }
+
+/// Writer adapter that flushes the inner writer every `every` bytes (forces several
+/// encrypted chunks when used on top of a CryptoWriter).
+pub struct FlushEvery<'a> {
+    pub inner: &'a mut dyn Write,
+    pub every: usize,
+    pub since: usize,
+}
+impl Write for FlushEvery<'_> {
+    fn write(&mut self, buf: &[u8]) -> std::io::Result<usize> {
+        if buf.is_empty() {
+            return Ok(0);
+        }
+        let every = self.every.max(1);
+        let room = every - self.since; // invariant: since < every
+        let n = buf.len().min(room);
+        let w = self.inner.write(&buf[..n])?;
+        self.since += w;
+        if self.since >= every {
+            self.inner.flush()?;
+            self.since = 0;
+        }
+        Ok(w)
+    }
+    fn flush(&mut self) -> std::io::Result<()> {
+        self.inner.flush()
+    }
+}
+
+/// CryptoWriter over `w` with a flush every `every` plaintext bytes (several chunks)
+pub fn write_crypto_chunked(ops: &dyn TypeOps, p: PathK, v: u32, vals: &[DV], w: &mut dyn Write, every: usize, key: [u8; 32]) -> Out<()> {
+    let core = ops.core();
+    guard(|| {
+        with_cur(core, p, || {
+            let mut w = w;
+            let mut cw = CryptoWriter::new(&mut w, key)?;
+            {
+                let mut fe = FlushEvery { inner: &mut cw, every, since: 0 };
+                savefile::save(&mut fe, v, &ErasedSave { core, path: p, vals })?;
+            }
+            cw.flush_final()
+        })
+    })
+}
+pub fn read_crypto(ops: &dyn TypeOps, p: PathK, v: u32, r: &mut dyn Read, key: [u8; 32]) -> Out<Vec<DV>> {
+    let core = ops.core();
+    guard(|| {
+        with_cur(core, p, || {
+            let mut r = r;
+            let mut cr = CryptoReader::new(&mut r, key)?;
+            savefile::load::<ErasedLoad>(&mut cr, v).map(|x| x.0)
+        })
+    })
+}
+
+/// save_encrypted_file / load_encrypted_file of the value(s) through the erased types
+pub fn write_encrypted_file(ops: &dyn TypeOps, p: PathK, v: u32, vals: &[DV], path: &std::path::Path, password: &str) -> Out<()> {
+    let core = ops.core();
+    guard(|| with_cur(core, p, || savefile::save_encrypted_file(path, v, &ErasedSave { core, path: p, vals }, password)))
+}
+pub fn read_encrypted_file(ops: &dyn TypeOps, p: PathK, v: u32, path: &std::path::Path, password: &str) -> Out<Vec<DV>> {
+    let core = ops.core();
+    guard(|| with_cur(core, p, || savefile::load_encrypted_file::<ErasedLoad, _>(path, v, password).map(|x| x.0)))
+}
 impl TypeOps for Erased {
     fn core(&self) -> &dyn Core {
         &*self.core
